@@ -364,6 +364,8 @@ def cut_while(ex, s, st, spec, tag, head, check, enforce_frame, entry):
             else:
                 o.st.written |= entry.written
                 outs.append(o)
+    if c is True:
+        return outs                    # `while True`: the loop is left through break / return / raise only
     hx.written = set(entry.written)
     for p in spec.modifies:
         hx.written.add(Ctx(ex, entry).path(p).id)
